@@ -8,7 +8,7 @@ export CARGO_NET_OFFLINE=true
 git checkout -q -- . ; rm -f tests/seeded_*.rs tests/roundtrip_*.rs tests/c06_seed*.rs tests/gamma_ht_c05.rs
 run_demo() {
   rc=0
-  for t in $d/*.rs; do [ -f "$t" ] && [ "$(basename $t)" != gamma_ht.rs ] && { cp $t tests/; b=$(basename $t .rs); cargo test --offline --test $b >/dev/null 2>&1 || rc=1; rm -f tests/$b.rs; }; done
+  for t in $d/*.rs; do [ -f "$t" ] && [ "$(basename $t)" != gamma_ht.rs ] && { cp $t tests/; b=$(basename $t .rs); cargo test --offline --features verif --test $b >/dev/null 2>&1 || rc=1; rm -f tests/$b.rs; }; done
   [ -f $d/gamma_ht.rs ] && { cp $d/gamma_ht.rs tests/gamma_ht_c05.rs; cargo test --offline --test gamma_ht_c05 >/dev/null 2>&1 || rc=1; rm -f tests/gamma_ht_c05.rs; }
   if [ -f $d/demo.sh ] && [ ! -f $d/seeded_c01_$n.rs ]; then cargo build --offline >/dev/null 2>&1; bash $d/demo.sh >/dev/null 2>&1 || rc=1; fi
   return $rc
